@@ -284,16 +284,50 @@ func c15Batch(w *Worker, cases []*genCase, name string) {
 	}
 	jobMode := map[string][]string{}
 	for _, j := range jobs {
-		jobMode[j.Pkg] = append(jobMode[j.Pkg], j.HistoryMode)
+		if j.Repeat == 0 {
+			jobMode[j.Pkg] = append(jobMode[j.Pkg], j.HistoryMode)
+		}
 	}
 	seenPerPkg := map[string]int{}
+	// long-lived parsers: the input set parsed 12 000 times on ONE global parser / ONE -o context
+	// (ParserInit before every parse); every round must give the results of the first round
+	nLong := 0
+	for _, e := range ents {
+		if nLong >= 3 {
+			break
+		}
+		nLong++
+		for _, v := range []string{gen.Go, gen.GoO} {
+			it := e.o.items[v]
+			if it.GenDiag == "" && it.BuildErr == "" {
+				jobs = append(jobs, gen.Job{Pkg: it.Pkg, Inputs: e.inputs, Repeat: 12000})
+			}
+		}
+	}
 	err = b.RunGo(jobs, func(o *gen.Out) {
+		if o.Kind == "repeat" {
+			e := byPkg[o.Pkg]
+			w.Count("long_lived_parsers", 1)
+			w.Count("long_lived_parses", int64(12000*len(e.inputs)))
+			if o.Pos >= 0 {
+				last := rt.Result{}
+				if len(o.Results) > 0 {
+					last = o.Results[len(o.Results)-1]
+				}
+				w.Violate("C15|long-lived|"+pkgVar[o.Pkg]+"|"+e.o.c.Spec.Key(), fmt.Sprintf("grammar [%s], %s parser: parse number %d on one long-lived parser/context (input %q, ParserInit() before it) no longer gives the result of the first round: now %s %s value=%d/%q", e.o.c.Spec.Key(), pkgVar[o.Pkg], o.Pos+1, o.Input, last.Class, last.Panic, last.N, last.S),
+					&GCase{Origin: "c15", Extra: mustJSON(e.o.c)}, nil)
+			}
+			return
+		}
 		if o.Kind != "history" {
 			return
 		}
 		e := byPkg[o.Pkg]
 		// jobs of one package are answered in order: mode index = results seen so far / number of histories
 		idx := seenPerPkg[o.Pkg] / len(e.hist)
+		if idx >= len(jobMode[o.Pkg]) {
+			idx = len(jobMode[o.Pkg]) - 1
+		}
 		seenPerPkg[o.Pkg]++
 		mode := jobMode[o.Pkg][idx]
 		judgeHistory(e, pkgVar[o.Pkg], mode, o.History, o.Results)
